@@ -231,8 +231,8 @@ def registry_phase(run, tier, wd, binary):
     return drift
 
 
-def run_check(prop, tier, replay=None):
-    run = vlib.Run(prop, tier, "model_checking")
+def run_check(prop, tier, replay=None, label=None):
+    run = vlib.Run(label or prop, tier, "model_checking")
     run.write_evidence = replay is None
     rng = random.Random(run.seed * 104729 + int(prop[1:]))
     workdir = vlib.scratch_dir(prop)
